@@ -292,7 +292,12 @@ type c15Case struct {
 }
 
 var c15PH = []any{"s", "<Any value>", strings.Repeat("long-placeholder-", 4), 7, nil, map[string]any{"k": 1}, []any{1, "x"}, true, "with \"quotes\" and \n newline",
-	"true", "null", "123", "1.5", "~", "", "- x", "k: v", "# c", "é «x»", "*a", "&a", "[x]", "{x}", "'q'", " lead", "trail ", "a: b: c", "|", ">", "%", "@"}
+	"true", "null", "123", "1.5", "~", "", "- x", "k: v", "# c", "é «x»", "*a", "&a", "[x]", "{x}", "'q'", " lead", "trail ", "a: b: c", "|", ">", "%", "@",
+	// JSON only (c15PHJSONOnly): control characters, DEL, a non-printable rune beyond the BMP, a cut-off multi-byte rune
+	"\x1b[0m esc", "nul\x00byte", "del\x7f", "vt\v ff\f bs\b", "tag\U000e0001", "caf\xc3"}
+
+// c15PHJSONOnly: index of the first placeholder that is enumerated for JSON documents only
+var c15PHJSONOnly = len(c15PH) - 6
 
 func c15PHTree(ph any) *vfNode {
 	b, _ := json.Marshal(ph)
@@ -379,7 +384,10 @@ func c15Gen(c *vfCtx, emit func(c15Case)) {
 						if kind == "type" && phi > 0 {
 							continue
 						}
-						if !c.thorough() && phi > 5 && (pi+phi)%4 != 0 {
+						if lang != "json" && phi >= c15PHJSONOnly {
+							continue
+						}
+						if !c.thorough() && phi > 5 && phi < c15PHJSONOnly && (pi+phi)%4 != 0 {
 							continue
 						}
 						for _, via := range []string{"direct", "api"} {
